@@ -1,5 +1,7 @@
 from .c20 import C20
+from .c18 import C18
+from .c19 import C19
 from .c03 import C03
 from .c13 import C13
 from .hs import C15, C16, C17
-REGISTRY = {p.id: p for p in [C20(), C03(), C13(), C15(), C16(), C17()]}
+REGISTRY = {p.id: p for p in [C20(), C18(), C19(), C03(), C13(), C15(), C16(), C17()]}
